@@ -92,7 +92,9 @@ func windows(c *work.Ctx, compare bool) {
 		{"MarshalIndent", func(x interface{}) ([]byte, error) { return json.MarshalIndent(x, "", " ") }, func(x interface{}) ([]byte, error) { return stdjson.MarshalIndent(x, "", " ") }},
 		{"MarshalNoEscape", func(x interface{}) ([]byte, error) { return json.MarshalNoEscape(x) }, func(x interface{}) ([]byte, error) { return stdjson.Marshal(x) }},
 		{"MarshalContext", func(x interface{}) ([]byte, error) { return json.MarshalContext(context.Background(), x) }, func(x interface{}) ([]byte, error) { return stdjson.Marshal(x) }},
-		{"Marshal+Colorize(zero scheme)", func(x interface{}) ([]byte, error) { return json.MarshalWithOption(x, json.Colorize(&json.ColorScheme{})) }, func(x interface{}) ([]byte, error) { return stdjson.Marshal(x) }},
+		{"Marshal+Colorize(zero scheme)", func(x interface{}) ([]byte, error) {
+			return json.MarshalWithOption(x, json.Colorize(&json.ColorScheme{}))
+		}, func(x interface{}) ([]byte, error) { return stdjson.Marshal(x) }},
 		{"Encoder", func(x interface{}) ([]byte, error) {
 			var b bytes.Buffer
 			err := json.NewEncoder(&b).Encode(x)
